@@ -16,6 +16,12 @@ Monitors (per generated request, built from explicit components so that the expe
                        method, URL (literal string + curl's globbing / dot-segment / fragment / reject rules), header multiset
                        (minus Content-Length and a Host equal to the URL host; ``--compressed`` stands for Accept-Encoding), and --
                        for UTF-8 text bodies without NUL -- exactly the body.
+* channels          -- every export is obtained through all public channels on the same flow: the module-level functions, the
+                       ``export`` command (text), ``export.file`` writing a real temp file, ``export.clip`` (pyperclip stubbed).
+                       The bytes ``export.file`` wrote are what the shells execute, what the quoting model parses and what the
+                       HTTP/1 reference parses; a module-function result that differs from the file is checked by the same
+                       oracles.  The text channels (display/clipboard) may escape what is not valid UTF-8: they must be ``str``
+                       without lone surrogates, equal to each other, and equal to the file whenever the file is valid UTF-8.
 * raw_parse_back    -- ``export.raw`` is parsed by the independent RFC 9112 reference (vf/ref/http1.py) and compared with the
                        request (method, target, version, headers, body).
 """
@@ -44,11 +50,11 @@ ENGINE = "direct"
 TECHNIQUE = "real bash/dash execution of the exported strings in a stub jail (+strace sample), POSIX-quoting model, curl/httpie argv model, HTTP/1 reference parse"
 BUDGET = {"quick": (400, 12), "thorough": (40_000, 200)}
 WORKERS = {"quick": 6, "thorough": 16}
-REQUIRED = ["shell_exec", "shell_model", "argv_semantics", "raw_parse_back"]
+REQUIRED = ["shell_exec", "shell_model", "argv_semantics", "raw_parse_back", "channel.file", "channel.func", "text_channels"]
 RULE = (
     "case = request built from (method, scheme, host, port, path+query, Host header relation, 0-5 headers, body kind, content-encoding, "
     "http version, preserve-original-ip option) with shell metacharacters, quotes, control characters, %, backslashes, leading -/@, "
-    "non-ASCII and raw 8-bit bytes in every field; each case: all three exports through the quoting model and the raw export through "
+    "non-ASCII and raw non-UTF-8 bytes (header values, request target, binary bodies); each case: every export through all four public channels (functions, export, export.file, export.clip), all three exports through the quoting model and the raw export through "
     "the HTTP/1 reference, one export (rotating curl/bash, curl/dash, httpie/bash) executed by a real shell; distinct = distinct "
     "(executed form, hostile-feature classes per field, body kind, header specials, outcome) tuple; non-trivial = at least one field "
     "contains a shell-special, control, percent, backslash or non-ASCII character"
@@ -148,6 +154,8 @@ def gen_spec(r):
     path = "/" + "/".join(segs)
     if r.random() < 0.5:
         path += "?" + "&".join(f"{r.choice(PLAIN)}={hostile(r, 1, 0.7) if r.random() < 0.6 else r.choice(PLAIN)}" for _ in range(r.randint(1, 3)))
+    if r.random() < 0.08:
+        path += ("&" if "?" in path else "?") + "q=caf\udce9"  # a raw latin-1 byte (0xE9) in the request target
     sp["path"] = path.replace("\x00", "")
     default = 80 if sp["scheme"] == "http" else 443
     sp["netloc"] = sp["host"] if sp["port"] == default else f"{sp['host']}:{sp['port']}"
@@ -207,7 +215,7 @@ def gen_spec(r):
     sp["headers"] = hdrs
     sp["preserve_ip"] = r.random() < 0.3
     sp["peer"] = r.choice([None, ("10.9.8.7", 443), ("10.0.0.1", 80), ("2001:db8::1", 443)])
-    sp["raw8"] = r.random() < 0.08  # put a raw non-UTF-8 byte into one header value
+    sp["raw8"] = r.random() < 0.2  # put raw non-UTF-8 bytes into one header value
     return sp
 
 
@@ -234,7 +242,6 @@ def gen_tame_spec(r):
         v = v.replace("\r", "").replace("\n", "").replace("\x00", "")
         hdrs.append((n, v))
     sp["headers"] = hdrs
-    sp["raw8"] = False
     sp["te_chunked"] = bool(sp["body"]) and sp["version"] == "HTTP/1.1" and r.random() < 0.15
     if sp["te_chunked"]:
         sp["has_cl"] = False
@@ -624,18 +631,26 @@ def in_raw_domain(sp):
     return True
 
 
-def check_raw(ctx, sp, exp, f):
+def check_raw(ctx, sp, exp, f, ch, fmt="raw"):
+    got = export_all(ctx, ch, fmt, f, sp)
+    if not got:
+        ctx.violation("raw-export-refused", {"format": fmt, "spec": short(repr(sp), 500)})
+        return "refused"
+    out = "ok"
+    for chan, raw in got.items():
+        r1 = check_raw_bytes(ctx, sp, raw, f"{fmt}/{chan}")
+        if r1 != "ok":
+            out = r1
+    return out
+
+
+def check_raw_bytes(ctx, sp, raw, chan):
     ctx.count("raw_parse_back")
-    try:
-        raw = export.raw(f)
-    except Exception as e:
-        ctx.violation(f"raw-export-raises:{type(e).__name__}@{exc_site(e)}", {"spec": short(repr(sp), 500), "exc": repr(e)})
-        return "raises"
     try:
         msg, pos = H1.parse_request(raw, 0, lenient=False)
     except (H1.Reject, H1.Incomplete) as e:
         mech = None
-        ctx.violation("raw-export-not-parsable", {"raw": raw[:600], "reason": f"{type(e).__name__}: {e}"}, mechanism=mech)
+        ctx.violation("raw-export-not-parsable", {"channel": chan, "raw": raw[:600], "reason": f"{type(e).__name__}: {e}"}, mechanism=mech)
         return "unparsable"
     diffs = []
     if msg["method"] != sp["method"]:
@@ -660,13 +675,103 @@ def check_raw(ctx, sp, exp, f):
     if msg["body"] != sp["body"] or pos != len(raw):
         diffs.append(("body", sp["body"][:200], msg["body"][:200], pos, len(raw)))
     for d in diffs:
-        ctx.violation("raw-parse-back-differs", {"what": d[0], "expected": d[1], "got": d[2], "raw": raw[:400]}, mechanism=body_mech if d[0] == "body" else None)
+        ctx.violation("raw-parse-back-differs", {"channel": chan, "what": d[0], "expected": d[1], "got": d[2], "raw": raw[:400]}, mechanism=body_mech if d[0] == "body" else None)
     return "differs" if diffs else "ok"
 
 
 # ------------------------------------------------------------------------------------------------
 # run
 # ------------------------------------------------------------------------------------------------
+
+class Channels:
+    """Every public way to obtain an export: module-level functions, the `export` command (text), `export.file` (a real file)
+    and `export.clip` (pyperclip stubbed)."""
+
+    def __init__(self, e, root):
+        self.e = e
+        self.path = os.path.join(root, "export.out")
+        self.clipped = []
+        self._old_copy = export.pyperclip.copy
+        export.pyperclip.copy = self.clipped.append
+
+    def close(self):
+        export.pyperclip.copy = self._old_copy
+
+    def file(self, fmt, f):
+        if os.path.exists(self.path):
+            os.unlink(self.path)
+        self.e.file(fmt, f, self.path)
+        if not os.path.exists(self.path):
+            return None
+        with open(self.path, "rb") as fp:
+            return fp.read()
+
+    def func(self, fmt, f):
+        v = export.formats[fmt](f)
+        return v if isinstance(v, bytes) else v.encode("utf-8", "surrogateescape")
+
+    def command(self, fmt, f):
+        return self.e.export_str(fmt, f)
+
+    def clip(self, fmt, f):
+        del self.clipped[:]
+        self.e.clip(fmt, f)
+        return self.clipped[-1] if self.clipped else None
+
+
+def export_all(ctx, ch, fmt, f, sp):
+    """Run one format through all four channels.  Returns {channel: bytes} for the byte channels that need the independent
+    oracle (the file always, the module function only when it differs from the file), or {} when the export was refused.
+    The text channels (`export`, `export.clip`) are display/clipboard text and may escape what is not valid UTF-8: they must
+    be str, free of lone surrogates, equal to each other, and -- when the exported bytes are valid UTF-8 -- equal to the file."""
+    res = {}
+    for name in ("file", "func", "command", "clip"):
+        ctx.count("channel." + name)
+        try:
+            res[name] = getattr(ch, name)(fmt, f)
+        except exceptions.CommandError as ex:
+            res[name] = exceptions.CommandError
+        except Exception as ex:
+            res[name] = None
+            ctx.violation(f"export-raises:{type(ex).__name__}@{exc_site(ex)}", {"channel": name, "format": fmt, "spec": short(repr(sp), 600), "exc": repr(ex)})
+    refused = [n for n, v in res.items() if v is exceptions.CommandError]
+    if refused:
+        if len(refused) != 4:
+            ctx.violation("export-channels-disagree-on-refusal", {"format": fmt, "refused": refused, "spec": short(repr(sp), 600)})
+        return {}
+    fb = res["file"]
+    if fb is None:
+        ctx.violation("export-file-not-written", {"format": fmt, "spec": short(repr(sp), 600)})
+    out = {}
+    if isinstance(fb, bytes):
+        out["file"] = fb
+    if isinstance(res["func"], bytes) and res["func"] != fb:
+        out["func"] = res["func"]
+    t, c = res["command"], res["clip"]
+    ctx.count("text_channels")
+    for name, v in (("command", t), ("clip", c)):
+        if v is None:
+            continue
+        if not isinstance(v, str):
+            ctx.violation("text-channel-not-str", {"channel": name, "format": fmt, "type": type(v).__name__})
+            continue
+        try:
+            enc = v.encode("utf-8")
+        except UnicodeEncodeError:
+            ctx.violation("text-channel-has-lone-surrogates", {"channel": name, "format": fmt, "text": short(repr(v), 300)})
+            continue
+        if isinstance(fb, bytes):
+            try:
+                fb.decode("utf-8")
+            except UnicodeDecodeError:
+                ctx.count("text_channel_escaped_non_utf8")
+            else:
+                if enc != fb:
+                    ctx.violation("text-channel-differs-from-file", {"channel": name, "format": fmt, "text": short(repr(v), 400), "file": fb[:400]})
+    if isinstance(t, str) and c != t:
+        ctx.violation("clipboard-differs-from-export-command", {"format": fmt, "command": short(repr(t), 300), "clip": short(repr(c), 300)})
+    return out
+
 
 def to_script(cmd: str) -> bytes:
     return cmd.encode("utf-8", "surrogateescape")
@@ -675,8 +780,10 @@ def to_script(cmd: str) -> bytes:
 def run(ctx):
     jail = Jail()
     e = export.Export()
+    ch = None
     try:
         with taddons.context(e) as tctx:
+            ch = Channels(e, jail.root)
             for i in ctx.cases():
                 r = ctx.rng
                 sp = gen_spec(r)
@@ -687,24 +794,25 @@ def run(ctx):
                 outcome = []
                 cmds = {}
                 text = body_text(sp)
-                for kind, fn in (("curl", export.curl_command), ("httpie", export.httpie_command)):
-                    try:
-                        cmds[kind] = fn(f)
-                    except exceptions.CommandError as ex:
+                extra_models = []
+                for kind in ("curl", "httpie"):
+                    got = export_all(ctx, ch, kind, f, sp)
+                    if "file" in got:
+                        cmds[kind] = got["file"].decode("utf-8", "surrogateescape")  # exactly the bytes export.file wrote
+                    else:
                         cmds[kind] = None
                         ctx.count("export_refused")
                         if text is not None:
-                            ctx.violation("export-refuses-text-body", {"kind": kind, "spec": short(repr(sp), 600), "exc": str(ex)})
-                    except Exception as ex:
-                        cmds[kind] = None
-                        ctx.violation(f"export-raises:{type(ex).__name__}@{exc_site(ex)}", {"kind": kind, "spec": short(repr(sp), 600), "exc": repr(ex)})
+                            ctx.violation("export-refuses-text-body", {"kind": kind, "spec": short(repr(sp), 600)})
+                    if "func" in got:
+                        ctx.count("function_differs_from_file")
+                        extra_models.append((kind, got["func"].decode("utf-8", "surrogateescape")))
                 # ---- quoting model on both commands
-                for kind in ("curl", "httpie"):
-                    cmd = cmds[kind]
+                for kind, cmd, chan in [(k, cmds[k], "file") for k in ("curl", "httpie")] + [(k, c, "func") for k, c in extra_models]:
                     if cmd is None:
                         continue
                     ctx.count("shell_model")
-                    what = {"form": kind + "-model", "cmd": short(cmd, 600)}
+                    what = {"form": kind + "-model", "channel": chan, "cmd": short(cmd, 600)}
                     try:
                         words, here = RS.parse(cmd)
                     except RS.Unsafe as ex:
@@ -765,11 +873,11 @@ def run(ctx):
                                 outcome.append(mech or k)
                 # ---- raw export
                 raw_out = "skipped"
-                if in_raw_domain(sp) and not sp["raw8"]:
-                    raw_out = check_raw(ctx, sp, exp, f)
+                if in_raw_domain(sp):
+                    raw_out = check_raw(ctx, sp, exp, f, ch, "raw")
                 sp2 = gen_tame_spec(r)
                 if in_raw_domain(sp2):
-                    raw2 = check_raw(ctx, sp2, expected(sp2), build_flow(sp2))
+                    raw2 = check_raw(ctx, sp2, expected(sp2), build_flow(sp2), ch, r.choice(["raw", "raw_request"]))
                     raw_out = raw_out + "/" + raw2 + ("/chunked" if sp2["te_chunked"] else "") + ("/gzip" if sp2["gzip"] else "")
                 feats = {
                     "m": tuple(sorted(feat(sp["method"]))),
@@ -782,6 +890,8 @@ def run(ctx):
                 sig = (form, bool(feats["m"]), union, sp["body_kind"], specials)
                 ctx.case(sig, nontrivial=nontrivial, sample={"form": form, "cmd": short(cmds.get(kind) or "", 400), "method": sp["method"], "path": sp["path"], "body_kind": sp["body_kind"]})
     finally:
+        if ch is not None:
+            ch.close()
         jail.close()
 
 
